@@ -489,7 +489,7 @@ func statusOutcome(pk *packages.Package, env *provEnv, self types.Object, p *cod
 	rs := p.Ret
 	if len(rs.Results) == 1 {
 		if call, ok := ast.Unparen(rs.Results[0]).(*ast.CallExpr); ok {
-			if calleeOf(info, call) == self {
+			if selfCallee(info, env.fd.Body, call) == self {
 				return "retry"
 			}
 			return "delegate:" + calleeNameOf(info, call)
@@ -513,7 +513,7 @@ func statusOutcome(pk *packages.Package, env *provEnv, self types.Object, p *cod
 			return st
 		}
 	}
-	statusExpr := statusExprOnPath(p)
+	statusExpr := statusExprOnPath(pk, p)
 	if statusExpr == nil {
 		return "response-without-status"
 	}
@@ -521,7 +521,7 @@ func statusOutcome(pk *packages.Package, env *provEnv, self types.Object, p *cod
 }
 
 // statusExprOnPath: the last `Status: X` of a literal or `….Status = X` assignment executed on the path.
-func statusExprOnPath(p *codePath) ast.Expr {
+func statusExprOnPath(pk *packages.Package, p *codePath) ast.Expr {
 	var statusExpr ast.Expr
 	for _, nd := range p.Nodes {
 		ast.Inspect(nd, func(n ast.Node) bool {
@@ -530,6 +530,31 @@ func statusExprOnPath(p *codePath) ast.Expr {
 			}
 			if kv, ok := n.(*ast.KeyValueExpr); ok && exprString(kv.Key) == "Status" {
 				statusExpr = kv.Value
+			}
+			// a response built by a helper of the package: the status is the argument that feeds the
+			// helper literal's Status
+			if call, ok := n.(*ast.CallExpr); ok && pk != nil {
+				if hl := helperLiteral(pk, call); hl != nil {
+					if fn, ok := calleeOf(pk.TypesInfo, call).(*types.Func); ok {
+						sig := fn.Type().(*types.Signature)
+						ast.Inspect(hl, func(y ast.Node) bool {
+							hkv, ok := y.(*ast.KeyValueExpr)
+							if !ok || exprString(hkv.Key) != "Status" {
+								return true
+							}
+							if pid, ok := ast.Unparen(hkv.Value).(*ast.Ident); ok {
+								for i := 0; i < sig.Params().Len() && i < len(call.Args); i++ {
+									if sig.Params().At(i) == pk.TypesInfo.Uses[pid] {
+										statusExpr = call.Args[i]
+									}
+								}
+							} else if constText(pk.TypesInfo, hkv.Value) != "" {
+								statusExpr = hkv.Value
+							}
+							return true
+						})
+					}
+				}
 			}
 			if as, ok := n.(*ast.AssignStmt); ok && len(as.Lhs) == len(as.Rhs) {
 				for i, l := range as.Lhs {
@@ -692,7 +717,7 @@ func ruleTables(specs ...*tableSpec) ruleFn {
 				// the status is produced by a pure decision helper or a read-only table: one outcome
 				// per entry of its partition, under the entry's conditions
 				if ts.Outcome == nil && strings.HasPrefix(got, "status:") {
-					if se := statusExprOnPath(p); se != nil {
+					if se := statusExprOnPath(pk, p); se != nil {
 						deciding := exprAlongPath(pk, se, p, 0)
 						if ents, ok := env.partitionOf(deciding); ok {
 							ovs := env.fieldOverrides(p, deciding)
